@@ -20,6 +20,8 @@ def run(ctx):
     E.r_cv_protocol(prog, rep)
     E.r_hb_result(prog, rep)
     E.r_protocol_order(prog, rep)
+    E.r_deps_reset(prog, rep)
+    E.r_queue_ops(prog, rep)
     E.r_thread_confined(prog, rep)
     E.r_cancel_delegates(prog, rep)
     E.r_mustfollow(prog, rep)
